@@ -366,7 +366,12 @@ def gen_c14_session(seed: int, index: int, ctx: GenCtx, faulty: bool, max_ops: i
     fault_kinds = [k for k in ["exc_call", "exc_call", "exc_line", "recursion", "io"] if rng.random() < 0.7] or ["exc_call"]
     fault_p = rng.choice([0.1, 0.2, 0.3]) if faulty else 0.0
     nops = rng.randrange(3, max_ops + 1)
+    keep_export_dir = rng.random() < 0.3  # the export directory outlives the runs of this session
     while len(b.ops) < nops:
+        if keep_export_dir:
+            for o_ in b.ops:
+                if o_["op"] == "cli":
+                    o_["keep_files"] = True
         kind = rng.choice(enabled)
         cid = rng.choice(pool)
         s1 = _s1(rng, policy)
@@ -420,6 +425,10 @@ def gen_c14_session(seed: int, index: int, ctx: GenCtx, faulty: bool, max_ops: i
                         # bounded progress after faults: this operation runs under the call-event
                         # counter and must stay within 10x the reference's step count
                         probe["trace"] = "count"
+    if keep_export_dir:
+        for o_ in b.ops:
+            if o_["op"] == "cli":
+                o_["keep_files"] = True
     return {"ops": b.ops, "hashseed": hashseed, "index": index, "faulty": faulty, "policy": policy}
 
 
